@@ -16,7 +16,7 @@ FUNCTIONS = ["pedal.sandbox.sandbox.Sandbox._execute/_execute_with_timeout/_capt
 BOUNDS = {"terminations": "10-entry menu", "entry points": "run, call, evaluate; threaded and not", "text": "<= 1 char (any unicode) unthreaded; 'x' threaded",
           "compile failures": "5 concrete sources", "locations": "8 concrete programs x run/call", "stream": "the stubbed program may close the stdout it was given (real StringIO, concrete text)"}
 OUTSIDE = ["which programs produce which termination; student-line locations beyond the 8-program menu of C04.locate",
-           "blocked open/import name filters (regex on symbolic strings)", "time-limit violations (C14)", "tracer styles", "nested imports"]
+           "blocked open/import name filters beyond the concrete programs of C04.real_programs", "time-limit violations (C14)", "tracer styles", "nested imports"]
 ASSUMPTIONS = ["exec stub as described", "_start_patches/_stop_patches run untraced", "result_proxy_class = None",
                "threaded obligations: the worker thread runs untraced (concrete values only cross the thread boundary)"]
 
@@ -27,5 +27,6 @@ def obligations(tier):
     obs.append(Ob("C04.contain_threaded", F, "contain_threaded", 300, what=w + " (threaded=True)"))
     obs.append(Ob("C04.compile_fail", F, "compile_fail", 120, what="non-compiling student file: run() returns, SyntaxError recorded, one runtime feedback"))
     obs.append(Ob("C04.locate", "harness/C04_locate.py", "locate", 120, what="8 concrete failing programs (real exec, untraced; solver enumerates the menu): the runtime feedback's line is the line CPython's traceback gives for the innermost student frame, through run() and call()"))
+    obs.append(Ob("C04.real_programs", "harness/C04_locate.py", "real_programs", 200, what="16 concrete programs through the real exec (blocked compile/eval/exec/globals/exit, import pedal, open outside the sandbox, sys.exit, raise SystemExit, unbounded recursion, broken __str__/__repr__, closed stdout, compile failures): run()/evaluate() return normally, one runtime feedback, exception recorded"))
     obs.append(Ob("C04.contain_reach", F, "contain_reach", 60, expect="refute", what="twin: a runtime feedback is produced"))
     return obs
